@@ -63,17 +63,21 @@ CHECKS["C07"] = {"category": "proof", "technique": "contract-based deductive ver
    "note": _NOTE + "Not covered: pretty_binning's width choice (log10/argmin over candidates), quantile edges (np.percentile is an uninterpreted stub), astropy rules, "
            "rounding of floor/ceil on binary64 (finding F6), doane's skewness."}
 CHECKS["C17"]["note"] = (_NOTE + "pandas / polars behaviour is an ASSUMED contract (pyvc/libstubs.py, written from the documentation); the cross-check feeds real pandas / polars "
-    "objects to the real adapters on sampled inputs and is the conformance run of these stubs. NOT covered by this check: dask arrays (graph construction / scheduler), xarray and "
-    "pandas conversions of histograms (to_xarray/from_xarray, to_dataframe/to_series, IntervalIndex), the .physt accessors and the Geant4 CSV parser -- no contract on them is claimed.")
+    "objects to the real adapters on sampled inputs and is the conformance run of these stubs. The pandas IntervalIndex round trip (binning_to_index / index_to_binning) is a stand-in contract decided "
+    "by that cross-check only; the Geant4 table-to-histogram step (_create_h1) and the dask graph shape (_run_dask) are under contract. NOT covered by this check: dask scheduling, xarray "
+    "conversions, to_dataframe / to_series, the .physt accessors and the text parsing of geant4.load_csv -- no contract on them is claimed.")
 CHECKS["C20"]["note"] = (_NOTE + "ASSUMED: matplotlib / plotly primitives draw what their arguments say (pyvc/plotstubs.py records the arguments handed to them); "
     "Normalize(clip=True) + colormap is monotone. What the back ends actually render is not verified. Not covered: image, polar_map, bar3d, globe/cylinder/surface maps, pair_bars, "
     "stats box, colorbar, format_time_ticks, folium, vega (disabled at this commit).")
 for _p, _t in {
     "C03": "Unbounded (ANY number of bins, z3 array terms + a quantified searchsorted contract): Histogram1D.find_bin and fill -- the reported bin contains the value, exactly that bin is "
-           "incremented by w (squared error by w*w), under/overflow/gap bookkeeping, statistics, dtype. ",
+           "incremented by w (squared error by w*w), under/overflow/gap bookkeeping, statistics, dtype; Histogram1D.fill_n for a batch of ANY length (every bin gains the weight of exactly "
+           "the batch entries inside it -- what folding fill over the batch adds; loop invariant + inductive lemmas of C01). ",
     "C05": "Unbounded (any number of bins): __iadd__ of histograms over the same bins adds contents and squared errors bin by bin, missed values, dtype promotion, other operand untouched. ",
     "C06": "Unbounded (any number of bins): __imul__ / __itruediv__ scale every content by c and every squared error by c*c; in-place normalize keeps proportions. ",
-    "C12": "Unbounded: Histogram1D.copy shares nothing writable for any number of bins. ",
+    "C12": "Unbounded: Histogram1D.copy shares nothing writable for any number of bins; slices h[a:b] are independent of their source. ",
+    "C11": "Unbounded (any number of bins): h[i] (edges and content of that bin) and h[a:b] (the selected bins with contents and errors; what is cut off goes to underflow / overflow so "
+           "nothing is lost -- sum-split and sum-shift lemmas proved by induction per run; source untouched). ",
     "C13": "Unbounded: dtype promotion / consistency clauses of __imul__, __itruediv__, __iadd__, fill for any number of bins. ",
     "C16": "Unbounded: densities * widths == frequencies, widths > 0, centres for any number of bins. ",
 }.items():
